@@ -211,7 +211,11 @@ func c19FinalState(ch *chain.Chain, path string) {
 		}
 	}
 	for _, g := range ch.App.IncentivesKeeper.GetGauges(qctx) {
-		out[fmt.Sprintf("query/gauge/%d", g.Id)] = g.String()
+		if g.IsFinishedGauge(qctx.BlockTime()) {
+			out[fmt.Sprintf("query/gauge-finished/%d", g.Id)] = g.String()
+		} else {
+			out[fmt.Sprintf("query/gauge/%d", g.Id)] = g.String()
+		}
 	}
 	out["query/supply/uosmo"] = ch.App.BankKeeper.GetSupply(qctx, "uosmo").String()
 	out["query/supply_with_offset/uosmo"] = ch.App.BankKeeper.GetSupplyWithOffset(qctx, "uosmo").String()
@@ -775,6 +779,11 @@ func runC19(c *vk.Ctx) {
 					if x.Code != y.Code || x.Codespace != y.Codespace || x.Data != y.Data || x.Events != y.Events || x.GasUsed != y.GasUsed {
 						sig["field"] = c19DiffField(x, y)
 						sig["msg"] = strings.Fields(descs[h][k])[0]
+						sig["msg_family"] = sig["msg"]
+						switch sig["msg"] {
+						case "lock", "extend", "begin", "receiver":
+							sig["msg_family"] = "lockup"
+						}
 						if isImport && !firstTxSeen && sig["field"] == "gas" && x.GasUsed-y.GasUsed == 36 {
 							// the first transaction after an import: recorded and the comparison goes on
 							firstTxSeen = true
